@@ -1124,7 +1124,8 @@ Proof.
   destruct (real_ctr_roundtrip (rk_user keys) derive (m_iv x) P LK WK LIV) as (_ & LC & RT).
   set (C := real_ctr (rk_user keys) derive (m_iv x) P) in *.
   destruct (post_encrypt_enc c x pre post sg C enc2 PP MC E3) as (enc_ivt & cbb & U2 & CE & ->).
-  rewrite sign_rsa in E4 by assumption. injection E4 as <-. unfold fst, snd in E5.
+  rewrite sign_rsa in E4 by assumption.
+  match type of E4 with Ok ?v = Ok _ => assert (SGN : sgn = v) by congruence end. subst sgn. clear E4. unfold fst, snd in E5.
   change (k_sign (real_crypto sign)) with sign in E5.
   pose proof (finalize_hmac_app_len _ c x _ _ fin PF E5) as AL64.
   destruct (v1_lens c x K HT) as (TLC & AL & TL).
@@ -1141,9 +1142,9 @@ Proof.
     rewrite firstn_app_ge by (rewrite firstn_length; lia). rewrite firstn_length. replace (Nat.min 56 (length C)) with 56 by lia.
     rewrite skipn_app_len by (rewrite firstn_length; lia). reflexivity. }
   (* the sub-image list handed to finalize *)
-  set (tail := match tzb with [] => [] | _ :: _ => [skipn alen C] end) in *.
+  set (tail := match tz_export (m_tz x) with [] => [] | _ :: _ => [skipn alen C] end) in *.
   assert (FTl : flat tail = skipn alen C).
-  { unfold tail. destruct tzb as [|t0 tt] eqn:Etz; [|unfold flat; simpl; now rewrite app_nil_r].
+  { unfold tail. fold tzb. destruct tzb as [|t0 tt] eqn:Etz; [|unfold flat; simpl; now rewrite app_nil_r].
     unfold flat. simpl. symmetry. apply skipn_all2. simpl in LCn. lia. }
   set (a := enc_ivt ++ slice C 64 alen). set (tr := firstn 56 C ++ m_iv x ++ skipn alen C).
   set (msg := a ++ cbb ++ tr).
@@ -1160,7 +1161,7 @@ Proof.
   { rewrite !flat_cons, flat_snoc, flat_app, FTl. unfold flat. cbn [concat]. rewrite app_nil_r.
     unfold msg, a, tr. now rewrite <- !app_assoc. }
   rewrite FS. rewrite (hmac_value_real sign x (rk_user keys) _ MH NK LK).
-  exists msg. cbv zeta. split; [reflexivity|]. split; [reflexivity|].
+  exists msg. cbv zeta. split; [exact E1|]. split; [reflexivity|].
   (* lengths and header words *)
   destruct (rom_enc_layout C enc_ivt cbb (m_iv x) (sign msg) alen A64 ltac:(lia) Lei SK LIV) as (La & Ltr & RCIPH & RIV).
   fold a tr in La, Ltr, RCIPH, RIV. fold msg in RCIPH.
@@ -1240,4 +1241,429 @@ Proof.
   - cbn [c1_table]. now rewrite RK.
   - cbv beta iota delta [Z.eqb Pos.eqb]. rewrite TZC, Ltr, LCn. unfold tzb. rewrite (tz_len_ok _ x TZ). lia.
   - intros X. pose proof (SL (a ++ cbb ++ tr)) as Y. rewrite X in Y. simpl in Y. lia.
+Qed.
+
+(* ------------------------------------------------------------------ ROM side: certificate block v2.1 + manifest *)
+Definition cb_v21_ok (rkth body : list N) (info : cb21_info) : Prop :=
+  16 <= length body /\ firstn 8 body = CHDR_B /\ natz (rd32 8 body) = length body /\
+  rom_cb_v21_body rkth body (length body) = Some info.
+Lemma rom_cb_v21_body_size rkth cb size info : rom_cb_v21_body rkth cb size = Some info -> c2_size info = size.
+Proof.
+  unfold rom_cb_v21_body. intros H.
+  repeat match type of H with
+         | (if ?b then _ else _) = Some _ => destruct b; try discriminate H
+         end; injection H as <-; reflexivity.
+Qed.
+Lemma rom_cb_v21_ctx rkth body info (a rest : list N) : cb_v21_ok rkth body info ->
+  rom_cb_v21 rkth (a ++ body ++ rest) (length a) = Some info /\ c2_size info = length body.
+Proof.
+  intros (L16 & MG & SZ & BD). split; [|eapply rom_cb_v21_body_size; eassumption].
+  unfold rom_cb_v21.
+  replace (Nat.ltb (length (a ++ body ++ rest)) (length a + 16)) with false
+    by (symmetry; apply Nat.ltb_ge; rewrite !app_length; lia).
+  assert (S8 : slice (a ++ body ++ rest) (length a) (length a + 8) = CHDR_B).
+  { rewrite slice_app_r by lia. rewrite Nat.sub_diag. replace (length a + 8 - length a) with 8 by lia.
+    rewrite slice_0. rewrite firstn_app_le by lia. exact MG. }
+  rewrite S8, eqb_list_refl'. cbn [negb].
+  assert (R8 : rd32 (length a + 8) (a ++ body ++ rest) = rd32 8 body).
+  { rewrite rd32_app_r by lia. replace (length a + 8 - length a) with 8 by lia. apply rd32_app. lia. }
+  rewrite R8, SZ.
+  replace (Nat.ltb (length (a ++ body ++ rest)) (length a + length body)) with false
+    by (symmetry; apply Nat.ltb_ge; rewrite !app_length; lia).
+  rewrite slice_app_mid. exact BD.
+Qed.
+
+Lemma rd32_at (p w r : list N) : length w = 4 -> rd32 (length p) (p ++ w ++ r) = Z.of_N (le_dec w).
+Proof. intros L. rewrite rd32_app_r by lia. rewrite Nat.sub_diag. unfold rd32. cbn [skipn]. now rewrite (firstn_app_len _ _ 4 L). Qed.
+Lemma le_dec_enc4 v : (v < 4294967296)%N -> le_dec (le_enc 4 v) = v.
+Proof. intros H. apply le_dec_enc_small. exact H. Qed.
+
+Definition manifest_bytes (w2 : list N) (mlen mflags : N) (tzb w5 : list N) : list N :=
+  IMGM_B ++ le_enc 4 65536 ++ w2 ++ le_enc 4 mlen ++ le_enc 4 mflags ++ tzb ++ w5.
+Lemma manifest_bytes_split w2 l f t w :
+  manifest_bytes w2 l f t w = (IMGM_B ++ le_enc 4 65536 ++ w2 ++ le_enc 4 l ++ le_enc 4 f ++ t) ++ w.
+Proof. unfold manifest_bytes. now rewrite <- !app_assoc. Qed.
+Definition klen_of (info : cb21_info) : nat := if (c2_alg info =? 2)%Z then 32 else 48.
+Definition v21_obl (info : cb21_info) (msg sig : list N) : list obligation :=
+  c2_obl info ++ [ImageSig (c2_alg info) (c2_pub info) msg sig].
+
+(* the structural part of the ROM's walk: certificate block, manifest header, positions of signature and digest *)
+Lemma rom_v21_layout cfg keys ty (a body w2 tzb w5 sig dg : list N) (mlen mflags : N) info :
+  min_off cfg ty <= length a -> rd32 40 a = zlen a -> 44 <= length a ->
+  cb_v21_ok (rk_rkth keys) body info -> length w2 = 4 ->
+  length tzb = (if tz_custom a then r_tzsize cfg else 0) ->
+  length w5 = (if r_mcrc cfg then 4 else 0) -> N.to_nat mlen = 20 + length tzb + length w5 ->
+  (mlen < 4294967296)%N -> (mflags < 4294967296)%N -> length sig = 2 * klen_of info ->
+  let mf := manifest_bytes w2 mlen mflags tzb w5 in
+  let msg := a ++ body ++ mf in
+  let s := msg ++ sig ++ dg in
+  rom_signed_v21 cfg keys ty s =
+    if r_mcrc cfg && negb (eqb_list (le_enc 4 (crc CRC32_MPEG2 (firstn (length msg - 4) msg))) w5 && (Z.of_N mflags =? 0)%Z)
+    then None
+    else if (if negb (r_mcrc cfg) && zbit (Z.of_N mflags) 2147483648
+             then let alg := Z.land (Z.of_N mflags) 15 in
+                  ((alg =? 1) || (alg =? 2) || (alg =? 3))%Z && (Z.of_N mflags =? 2147483648 + alg)%Z &&
+                  (alg =? c2_alg info - 1)%Z && eqb_list dg (hash_by alg msg)
+             else (r_mcrc cfg || (Z.of_N mflags =? 0)%Z) && Nat.eqb (length dg) 0)
+         then Some {| ro_plain := msg; ro_msg := msg; ro_obl := v21_obl info msg sig |}
+         else None.
+Proof.
+  intros MO W40 L44 CB Lw2 LT Lw5 ML MB FB LS mf msg s.
+  unfold rom_signed_v21.
+  assert (Es : s = a ++ body ++ (mf ++ sig ++ dg)) by (unfold s, msg; now rewrite <- !app_assoc).
+  assert (O : natz (rd32 40 s) = length a).
+  { rewrite Es. rewrite rd32_app by lia. rewrite W40. unfold natz, zlen. apply Nat2Z.id. }
+  rewrite O. replace (Nat.ltb (length a) (min_off cfg ty)) with false by (symmetry; apply Nat.ltb_ge; exact MO).
+  destruct (rom_cb_v21_ctx (rk_rkth keys) body info a (mf ++ sig ++ dg) CB) as (CBE & CSZ).
+  rewrite Es at 1. rewrite CBE, CSZ.
+  set (m0 := length a + length body).
+  assert (Lmf : length mf = 20 + length tzb + length w5).
+  { unfold mf, manifest_bytes. rewrite !app_length, !le_enc_length, Lw2. reflexivity. }
+  assert (Lmsg : length msg = m0 + length mf) by (unfold msg, m0; rewrite !app_length; lia).
+  assert (Lsx : length s = m0 + length mf + length sig + length dg) by (unfold s; rewrite !app_length; lia).
+  replace (Nat.ltb (length s) (m0 + 20)) with false by (symmetry; apply Nat.ltb_ge; lia).
+  (* manifest header words *)
+  assert (SM : slice s m0 (m0 + 4) = IMGM_B).
+  { assert (X : s = (a ++ body) ++ IMGM_B ++ ((le_enc 4 65536 ++ w2 ++ le_enc 4 mlen ++ le_enc 4 mflags ++ tzb ++ w5) ++ sig ++ dg)).
+    { unfold s, msg, mf, manifest_bytes. now rewrite <- !app_assoc. }
+    rewrite X. unfold m0. rewrite <- app_length. change 4 with (length IMGM_B). apply slice_app_mid. }
+  rewrite SM. change (eqb_list IMGM_B IMGM_B) with true. cbn [negb].
+  assert (R4 : rd32 (m0 + 4) s = 65536%Z).
+  { assert (X : exists r, s = (a ++ body ++ IMGM_B) ++ le_enc 4 65536 ++ r).
+    { eexists. unfold s, msg, mf, manifest_bytes. rewrite <- !app_assoc. reflexivity. }
+    destruct X as (r & X). rewrite X. replace (m0 + 4) with (length (a ++ body ++ IMGM_B)) by (unfold m0; rewrite !app_length; simpl; lia).
+    rewrite rd32_at by apply le_enc_length. reflexivity. }
+  rewrite R4. change (65536 =? 65536)%Z with true. cbn [negb].
+  assert (R12 : rd32 (m0 + 12) s = Z.of_N mlen).
+  { assert (X : exists r, s = (a ++ body ++ IMGM_B ++ le_enc 4 65536 ++ w2) ++ le_enc 4 mlen ++ r).
+    { eexists. unfold s, msg, mf, manifest_bytes. rewrite <- !app_assoc. reflexivity. }
+    destruct X as (r & X). rewrite X.
+    replace (m0 + 12) with (length (a ++ body ++ IMGM_B ++ le_enc 4 65536 ++ w2))
+      by (unfold m0; rewrite !app_length, !le_enc_length, Lw2; simpl; lia).
+    rewrite rd32_at by apply le_enc_length. now rewrite le_dec_enc4. }
+  assert (R16 : rd32 (m0 + 16) s = Z.of_N mflags).
+  { assert (X : exists r, s = (a ++ body ++ IMGM_B ++ le_enc 4 65536 ++ w2 ++ le_enc 4 mlen) ++ le_enc 4 mflags ++ r).
+    { eexists. unfold s, msg, mf, manifest_bytes. rewrite <- !app_assoc. reflexivity. }
+    destruct X as (r & X). rewrite X.
+    replace (m0 + 16) with (length (a ++ body ++ IMGM_B ++ le_enc 4 65536 ++ w2 ++ le_enc 4 mlen))
+      by (unfold m0; rewrite !app_length, !le_enc_length, Lw2; simpl; lia).
+    rewrite rd32_at by apply le_enc_length. now rewrite le_dec_enc4. }
+  rewrite R12, R16.
+  assert (TZ : tz_custom s = tz_custom a).
+  { unfold tz_custom, rom_word. rewrite Es. now rewrite rd32_app by lia. }
+  rewrite TZ. rewrite <- LT.
+  assert (MLn : natz (Z.of_N mlen) = length mf).
+  { unfold natz. rewrite <- Z_N_nat, N2Z.id. rewrite ML, Lmf. reflexivity. }
+  rewrite MLn.
+  replace (Nat.eqb (length mf) (20 + length tzb + (if r_mcrc cfg then 4 else 0))) with true
+    by (symmetry; apply Nat.eqb_eq; rewrite Lmf, Lw5; reflexivity).
+  cbn [negb]. rewrite <- Lmsg.
+  replace (Nat.ltb (length s) (length msg)) with false by (symmetry; apply Nat.ltb_ge; lia).
+  assert (FM : firstn (length msg) s = msg) by (unfold s; apply firstn_app_exact).
+  assert (F4 : firstn (length msg - 4) s = firstn (length msg - 4) msg) by (unfold s; apply firstn_app_le; lia).
+  assert (SL5 : r_mcrc cfg = true -> slice s (length msg - 4) (length msg) = w5).
+  { intros RM. rewrite RM in Lw5. unfold s. rewrite slice_app_l by lia. rewrite slice_all.
+    unfold msg, mf, manifest_bytes. rewrite !app_assoc. apply skipn_app_len. rewrite !app_length, !le_enc_length, Lw2, Lw5.
+    lia. }
+  rewrite F4. fold (klen_of info).
+  assert (SS : slice s (length msg) (length msg + 2 * klen_of info) = sig).
+  { unfold s. rewrite <- LS. apply slice_app_mid. }
+  assert (SD : skipn (length msg + 2 * klen_of info) s = dg).
+  { unfold s. rewrite <- LS. rewrite app_assoc. rewrite <- app_length. apply skipn_app_exact. }
+  rewrite SS, SD, FM.
+  replace (Nat.ltb (length s) (length msg + 2 * klen_of info)) with false by (symmetry; apply Nat.ltb_ge; lia).
+  replace (Nat.eqb (length s) (length msg + 2 * klen_of info)) with (Nat.eqb (length dg) 0).
+  2:{ destruct (Nat.eqb (length dg) 0) eqn:X; symmetry; [apply Nat.eqb_eq in X; apply Nat.eqb_eq; lia|apply Nat.eqb_neq in X; apply Nat.eqb_neq; lia]. }
+  fold (v21_obl info msg sig).
+  destruct (r_mcrc cfg) eqn:RM.
+  - rewrite (SL5 eq_refl). reflexivity.
+  - reflexivity.
+Qed.
+
+(* ------------------------------------------------------------------ export side: certificate block v2.1 + manifest *)
+Lemma u32_enc v w : u32 v = Ok w -> w = le_enc 4 (Z.to_N v) /\ (0 <= v < 4294967296)%Z.
+Proof.
+  unfold u32. destruct ((0 <=? v)%Z && (v <? 4294967296)%Z) eqn:E; [|discriminate]. intros H. injection H as <-.
+  apply andb_true_iff in E as [E1 E2]. apply Z.leb_le in E1. apply Z.ltb_lt in E2. auto.
+Qed.
+Definition mf_total (c : mbi_class) (x : mbi) : Z := (20 + zlen (tz_export (m_tz x)) + (if has c MixinManifestCrc then 4 else 0))%Z.
+Definition mf_flags (c : mbi_class) (x : mbi) : Z := if has c MixinManifestCrc then 0%Z else manifest_flags (m_digest x).
+Lemma manifest_export_inv c x crc mf : manifest_export c x crc = Ok mf ->
+  exists w2 w5, u32 (m_fwver x) = Ok w2 /\ length w2 = 4 /\
+    mf = manifest_bytes w2 (Z.to_N (mf_total c x)) (Z.to_N (mf_flags c x)) (tz_export (m_tz x)) w5 /\
+    (0 <= mf_total c x < 4294967296)%Z /\ (0 <= mf_flags c x < 4294967296)%Z /\
+    (if has c MixinManifestCrc then w5 = le_enc 4 (Z.to_N crc) /\ (0 <= crc < 4294967296)%Z else w5 = []).
+Proof.
+  unfold manifest_export. fold (mf_total c x) (mf_flags c x).
+  change (u32 G_MANIFEST_MAGIC) with (Ok IMGM_B). change (u32 G_MANIFEST_FORMAT_VERSION) with (Ok (le_enc 4 65536)). cbn [bind].
+  destruct (u32 (m_fwver x)) as [w2|] eqn:U2; cbn [bind]; [|discriminate].
+  destruct (u32 (mf_total c x)) as [w3|] eqn:U3; cbn [bind]; [|discriminate].
+  destruct (u32 (mf_flags c x)) as [w4|] eqn:U4; cbn [bind]; [|discriminate].
+  pose proof (u32_length _ _ U2) as L2. apply u32_enc in U3 as [-> R3]. apply u32_enc in U4 as [-> R4].
+  destruct (has c MixinManifestCrc).
+  - destruct (u32 crc) as [w5|] eqn:U5; cbn [bind]; [|discriminate]. apply u32_enc in U5 as [-> R5].
+    intros H. exists w2, (le_enc 4 (Z.to_N crc)). split; [reflexivity|]. split; [exact L2|]. split; [unfold manifest_bytes; congruence|auto].
+  - cbn [bind]. intros H. exists w2, []. split; [reflexivity|]. split; [exact L2|]. split; [unfold manifest_bytes; congruence|auto].
+Qed.
+
+Lemma collect_v21 c x raw : provider c SCollect = Some ExportMixinAppCertBlockManifest ->
+  56 <= length (m_app x) -> collect c x = Ok raw ->
+  exists cb app' cbb mf0 mf, m_cert x = Some cb /\
+    update_ivt c x (m_app x) (total_len c x) (app_len c x) = Ok app' /\ cert_export cb 1 = Ok cbb /\
+    manifest_export c x 0 = Ok mf0 /\
+    (if has c MixinManifestCrc
+     then manifest_export c x (Z.of_N (mbi_crc32_mpeg (drop_last 4 (app' ++ cbb ++ mf0)))) = Ok mf else mf = mf0) /\
+    raw = [app'; cbb; mf].
+Proof.
+  intros PC L E. unfold collect in E. rewrite PC in E.
+  destruct (m_app x) as [|b t] eqn:Ea; [simpl in L; lia|]. rewrite <- Ea in *.
+  destruct (m_cert x) as [cb|]; [|discriminate E].
+  destruct (update_ivt c x (m_app x) (total_len c x) (app_len c x)) as [app'|] eqn:U; cbn [bind] in E; [|discriminate].
+  destruct (cert_export cb 1) as [cbb|] eqn:CE; cbn [bind] in E; [|discriminate].
+  destruct (manifest_export c x 0) as [mf0|] eqn:M0; cbn [bind] in E; [|discriminate].
+  destruct (has c MixinManifestCrc) eqn:HC.
+  - destruct (manifest_export c x (Z.of_N (mbi_crc32_mpeg (drop_last 4 (app' ++ cbb ++ mf0))))) as [mf|] eqn:M1; cbn [bind] in E; [|discriminate].
+    injection E as <-. exists cb, app', cbb, mf0, mf. auto 10.
+  - injection E as <-. exists cb, app', cbb, mf0, mf0. auto 10.
+Qed.
+
+Lemma tz_custom_flags' c x (a : list N) : (0 <= c_type c < 64)%Z -> wf_input x -> has_tz c = true ->
+  rd32 36 a = create_flags c x -> tz_custom a = match m_tz x with TzCustom _ => true | _ => false end.
+Proof.
+  intros CT (H1 & H2 & _) HA R. unfold tz_custom, rom_word. rewrite R.
+  destruct (flags_decode_lemma c x CT H1 H2) as (_ & _ & E & _).
+  change G_IVT_IMAGE_FLAGS_TZ_TYPE_SHIFT with 13%Z in E. change G_IVT_IMAGE_FLAGS_TZ_TYPE_MASK with 3%Z in E. rewrite E, HA.
+  destruct (m_tz x); reflexivity.
+Qed.
+Lemma hash_by_length alg d : (alg = 1 \/ alg = 2 \/ alg = 3)%Z -> Z.of_nat (length (hash_by alg d)) = hash_size alg.
+Proof.
+  intros [-> | [-> | ->]]; unfold hash_by, hash_size; cbn [Z.eqb Pos.eqb];
+    rewrite ?rom_sha256_length, ?rom_sha384_length, ?rom_sha512_length; reflexivity.
+Qed.
+Lemma real_hash_by alg d : (alg = 1 \/ alg = 2 \/ alg = 3)%Z -> real_hash alg d = hash_by alg d.
+Proof. intros [-> | [-> | ->]]; reflexivity. Qed.
+
+
+Lemma andb_assoc_dup (a d : bool) : (a && negb d && negb d) = (a && negb d).
+Proof. destruct a, d; reflexivity. Qed.
+Definition v21_digest (c : mbi_class) (x : mbi) (msg : list N) : list N :=
+  if has c MixinManifestDigest && negb (m_digest x =? 0)%Z then hash_by (m_digest x) msg else [].
+
+Theorem v21_accept_l sign c x img cfg keys body sg info :
+  k_v21 c = true -> wf_input x -> m_cert x = Some (CertV21 body sg) -> cb_v21_ok (rk_rkth keys) body info ->
+  r_cb cfg = CbV21 -> r_hmac cfg = false -> r_mcrc cfg = has c MixinManifestCrc -> In (c_type c) (r_types cfg) ->
+  tz_ok (r_tzsize cfg) x -> (0 <= m_digest x <= 3)%Z -> (m_digest x = 0 \/ m_digest x = c2_alg info - 1)%Z ->
+  sg = 2 * klen_of info -> (forall m, length (sign m) = sg) ->
+  export_mbi (real_crypto sign) c x = Ok img ->
+  exists msg, img = msg ++ sign msg ++ v21_digest c x msg /\
+    rom_mbi cfg keys img = Some {| ro_plain := msg; ro_msg := msg; ro_obl := v21_obl info msg (sign msg) |}.
+Proof.
+  intros K WI MC CB RCB RH RMC TY TZ DG DM SGE SL E. pose proof WI as (_ & _ & HT).
+  unfold k_v21 in K. apply andb_true_iff in K as [K CT]. do 16 (apply andb_true_iff in K as [K ?]).
+  rename H into PU, H0 into PF, H1 into PS, H2 into PP, H3 into PE, H4 into PC, H5 into NHM, H6 into NH, H7 into NKS,
+    H8 into NTM, H9 into NT, H10 into XM, H11 into NC1, H12 into HC21, H13 into HA, H14 into ND. norm_bools.
+  assert (CTV : (c_type c = 4 \/ c_type c = 8 \/ c_type c = 1)%Z).
+  { apply orb_true_iff in CT as [CT|CT]; [apply orb_true_iff in CT as [CT|CT]|]; apply Z.eqb_eq in CT; auto. }
+  destruct (export_inv _ c x img E) as (_ & V & raw & enc & enc2 & sgn & fin & E1 & E2 & E3 & E4 & E5 & ->).
+  assert (L : 56 <= length (m_app x)) by (apply (validate_app_len c x V); assumption).
+  destruct (collect_v21 c x raw PC L E1) as (cb & app' & cbb & mf0 & mf & MC' & U & CE & M0 & M1 & ->).
+  rewrite MC in MC'. injection MC' as <-. cbn [cert_export] in CE. injection CE as <-.
+  rewrite (encrypt_none _ c x _ PE) in E2. injection E2 as <-.
+  rewrite (post_encrypt_none c x _ PP) in E3. injection E3 as <-.
+  unfold MbiModel.sign in E4. rewrite PS in E4.
+  match type of E4 with Ok ?v = Ok _ => assert (SGN : sgn = v) by congruence end. subst sgn. clear E4. unfold fst, snd in E5.
+  change (k_sign (real_crypto sign)) with sign in E5.
+  assert (FR : flat [app'; body; mf] = app' ++ body ++ mf) by (unfold flat; simpl; now rewrite app_nil_r).
+  rewrite FR in E5. set (msg := app' ++ body ++ mf) in *.
+  assert (HM : has_manifest c = true).
+  { unfold has_manifest. destruct (has c MixinManifestCrc), (has c MixinManifestDigest); try discriminate XM; reflexivity. }
+  (* finalize: optional digest *)
+  assert (IMG : flat fin = msg ++ sign msg ++ v21_digest c x msg).
+  { unfold finalize in E5. rewrite PF in E5. unfold v21_digest.
+    assert (MFZ : (manifest_flags (m_digest x) =? 0)%Z = (m_digest x =? 0)%Z).
+    { unfold manifest_flags. destruct (m_digest x =? 0)%Z eqn:X; [reflexivity|].
+      apply Z.eqb_neq in X. apply Z.eqb_neq. change G_MANIFEST_DIGEST_PRESENT_FLAG with 2147483648%Z.
+      assert (D : (m_digest x = 1 \/ m_digest x = 2 \/ m_digest x = 3)%Z) by lia.
+      destruct D as [-> | [-> | ->]]; discriminate. }
+    rewrite MFZ in E5. rewrite andb_assoc_dup in E5.
+    destruct (has c MixinManifestDigest && negb (m_digest x =? 0)%Z) eqn:CD.
+    - rewrite PS in E5.
+      match type of E5 with Ok ?v = Ok _ => assert (FIN : fin = v) by congruence end. rewrite FIN.
+      rewrite flat_snoc, flat_snoc, FR. change (k_hash (real_crypto sign)) with real_hash.
+      rewrite real_hash_by; [now rewrite <- app_assoc|]. apply andb_true_iff in CD as [_ CD]. apply negb_true_iff, Z.eqb_neq in CD. lia.
+    - match type of E5 with Ok ?v = Ok _ => assert (FIN : fin = v) by congruence end. rewrite FIN.
+      rewrite flat_snoc, FR, app_nil_r. reflexivity. }
+  rewrite IMG. exists msg. split; [reflexivity|].
+  (* header words *)
+  destruct (ivt_words c x (m_app x) (total_len c x) (app_len c x) app' L U) as (I1 & I2 & I3 & _).
+  rewrite off_len_eq in I1. rewrite off_flags_eq in I2. rewrite off_crc_eq in I3.
+  unfold ivt_total in I1. rewrite PU in I1.
+  unfold ivt_crc in I3. replace (c_type c =? 0)%Z with false in I3 by (symmetry; apply Z.eqb_neq; lia).
+  assert (La : length app' = length (m_app x)) by (eapply update_ivt_length; eassumption).
+  assert (CT' : (0 <= c_type c < 64)%Z) by lia.
+  assert (T63 : Z.land (create_flags c x) 63 = c_type c) by (now apply land63_type).
+  assert (HTZ : has_tz c = true) by (unfold has_tz; rewrite HM; apply orb_true_r).
+  assert (TZC : tz_custom app' = match m_tz x with TzCustom _ => true | _ => false end) by (now apply (tz_custom_flags' c x)).
+  rewrite (app_len_expand c x ND HT), (hz_true c MixinApp _ HA) in I3.
+  (* manifest structure *)
+  set (tzb := tz_export (m_tz x)) in *.
+  assert (MFS : exists w2 w5, length w2 = 4 /\ mf = manifest_bytes w2 (Z.to_N (mf_total c x)) (Z.to_N (mf_flags c x)) tzb w5 /\
+            (0 <= mf_total c x < 4294967296)%Z /\ (0 <= mf_flags c x < 4294967296)%Z /\
+            length w5 = (if has c MixinManifestCrc then 4 else 0) /\
+            (has c MixinManifestCrc = true -> w5 = le_enc 4 (crc CRC32_MPEG2 (firstn (length msg - 4) msg)))).
+  { destruct (manifest_export_inv c x 0 mf0 M0) as (w2 & w50 & UW & Lw2 & EM0 & R1 & R2 & W50).
+    destruct (has c MixinManifestCrc) eqn:HC.
+    - destruct (manifest_export_inv c x _ mf M1) as (w2' & w5 & UW' & Lw2' & EM & _ & _ & W5). rewrite HC in W5. destruct W5 as [W5 _].
+      rewrite UW in UW'. injection UW' as <-. destruct W50 as [W50 _].
+      exists w2, w5. repeat split; try assumption; try lia.
+      + rewrite W5. apply le_enc_length.
+      + intros _. rewrite W5, N2Z.id. f_equal.
+        destruct (crc_bridge_l (drop_last 4 (app' ++ body ++ mf0)) []) as [-> _]. f_equal.
+        unfold drop_last. unfold msg. rewrite EM, EM0. rewrite !manifest_bytes_split.
+        assert (A5 : length w50 = 4) by (rewrite W50; apply le_enc_length).
+        assert (B5 : length w5 = 4) by (rewrite W5; apply le_enc_length).
+        rewrite !(app_assoc body), !(app_assoc app').
+        rewrite !(app_length _ w50), !(app_length _ w5), A5, B5.
+        rewrite !Nat.add_sub. now rewrite !firstn_app_exact.
+    - subst mf. exists w2, w50. repeat split; try assumption; try lia. now rewrite W50. }
+  destruct MFS as (w2 & w5 & Lw2 & EM & R1 & R2 & Lw5 & W5C).
+  assert (Ltz : length tzb = if tz_custom app' then r_tzsize cfg else 0) by (rewrite TZC; unfold tzb; now apply tz_len_ok).
+  assert (MLn : N.to_nat (Z.to_N (mf_total c x)) = 20 + length tzb + length w5).
+  { rewrite Z_N_nat. unfold mf_total. fold tzb. rewrite Lw5. unfold zlen. destruct (has c MixinManifestCrc); lia. }
+  assert (Lmf : length mf = 20 + length tzb + length w5).
+  { rewrite EM. unfold manifest_bytes. rewrite !app_length, !le_enc_length, Lw2. reflexivity. }
+  (* total length *)
+  assert (Ld : Z.of_nat (length (v21_digest c x msg)) =
+               (if has c MixinManifestDigest && negb (m_digest x =? 0)%Z then hash_size (m_digest x) else 0)%Z).
+  { unfold v21_digest. destruct (has c MixinManifestDigest && negb (m_digest x =? 0)%Z) eqn:CD; [|reflexivity].
+    apply hash_by_length. apply andb_true_iff in CD as [_ CD]. apply negb_true_iff, Z.eqb_neq in CD. lia. }
+  assert (TL : total_len c x = zlen (msg ++ sign msg ++ v21_digest c x msg)).
+  { rewrite (total_len_expand c x ND HT). rewrite (hz_true c MixinApp _ HA), (hz_true c MixinCertBlockV21 _ HC21).
+    rewrite (hz_false c MixinTrustZone), (hz_false c MixinTrustZoneMandatory), (hz_false c MixinCertBlockV1), (hz_false c MixinKeyStore),
+      (hz_false c MixinHmac), (hz_false c MixinHmacMandatory) by assumption.
+    unfold zlen at 2. rewrite !app_length, SL. rewrite Nat2Z.inj_add, Nat2Z.inj_add, Ld.
+    unfold msg. rewrite !app_length, La, Lmf. cbn [mix_len]. rewrite MC. cbn [cert_size cert_sig]. fold tzb. unfold hz, zlen.
+    change G_MANIFEST_DIGEST_PRESENT_FLAG with 2147483648%Z.
+    assert (PB : (Z.land (manifest_flags (m_digest x)) 2147483648 =? 0)%Z = (m_digest x =? 0)%Z).
+    { unfold manifest_flags. change G_MANIFEST_DIGEST_PRESENT_FLAG with 2147483648%Z.
+      assert (D : (m_digest x = 0 \/ m_digest x = 1 \/ m_digest x = 2 \/ m_digest x = 3)%Z) by lia.
+      destruct D as [-> | [-> | [-> | ->]]]; reflexivity. }
+    rewrite PB. rewrite Lw5.
+    destruct (has c MixinManifestCrc), (has c MixinManifestDigest); try discriminate XM; cbn [andb];
+      destruct (m_digest x =? 0)%Z; cbn [negb]; lia. }
+  set (img := msg ++ sign msg ++ v21_digest c x msg) in *.
+  assert (RI : forall o, o + 4 <= 56 -> rd32 o img = rd32 o app').
+  { intros o Ho. unfold img, msg. rewrite <- !app_assoc. apply rd32_app. lia. }
+  unfold rom_mbi.
+  assert (L56 : Nat.ltb (length img) 56 = false).
+  { apply Nat.ltb_ge. unfold img, msg. rewrite !app_length. lia. }
+  rewrite L56, (RI 36), I2, T63, (in_existsb_z _ _ TY), (RI 32), I1, TL, Z.eqb_refl by lia.
+  assert (NS : rom_strip cfg keys (c_type c) img = Some img).
+  { unfold rom_strip, has_hmac. now rewrite RH. }
+  assert (TYB : ((c_type c =? 0) = false /\ ((c_type c =? 2) || (c_type c =? 5)) = false /\
+                 negb ((c_type c =? 1) || (c_type c =? 3) || (c_type c =? 4) || (c_type c =? 8)) = false /\ (c_type c =? 3) = false)%Z).
+  { destruct CTV as [-> | [-> | ->]]; repeat split; reflexivity. }
+  destruct TYB as (B0 & B1 & B2 & B3). rewrite B0, B1, B2, NS, RCB, B3. cbn [negb].
+  assert (LAY := rom_v21_layout cfg keys (c_type c) app' body w2 tzb w5 (sign msg) (v21_digest c x msg)
+             (Z.to_N (mf_total c x)) (Z.to_N (mf_flags c x)) info).
+  cbv zeta in LAY. rewrite <- EM in LAY. fold msg in LAY. fold img in LAY. rewrite LAY; clear LAY.
+  - (* the two variants of the tail check *)
+    rewrite RMC. rewrite !Z2N.id by lia.
+    destruct (has c MixinManifestCrc) eqn:HC.
+    + assert (HD : has c MixinManifestDigest = false) by (destruct (has c MixinManifestDigest); [discriminate XM|reflexivity]).
+      rewrite (W5C eq_refl), eqb_list_refl'. unfold mf_flags. rewrite HC. cbn [andb negb Z.eqb orb].
+      unfold v21_digest. rewrite HD. reflexivity.
+    + assert (HD : has c MixinManifestDigest = true) by (destruct (has c MixinManifestDigest); [reflexivity|discriminate XM]).
+      cbn [andb negb orb]. unfold mf_flags. rewrite HC. unfold v21_digest. rewrite HD. cbn [andb].
+      unfold manifest_flags. change G_MANIFEST_DIGEST_PRESENT_FLAG with 2147483648%Z.
+      destruct DM as [D0|D1].
+      * rewrite D0. reflexivity.
+      * assert (D : (m_digest x = 0 \/ m_digest x = 1 \/ m_digest x = 2 \/ m_digest x = 3)%Z) by lia.
+        destruct D as [D|[D|[D|D]]]; rewrite D in *; cbn; rewrite <- ?D1; try reflexivity; rewrite eqb_list_refl'; reflexivity.
+  - unfold min_off, has_hmac. rewrite RH. cbn [andb]. lia.
+  - rewrite I3. unfold zlen. now rewrite La.
+  - lia.
+  - exact CB.
+  - exact Lw2.
+  - exact Ltz.
+  - rewrite RMC. exact Lw5.
+  - exact MLn.
+  - lia.
+  - lia.
+  - rewrite SL. exact SGE.
+Qed.
+
+(* ------------------------------------------------------------------ instances and refutation witnesses for the remaining kinds *)
+Definition demo_c_enc : mbi_class :=
+  {| c_type := 3; c_mixins := [MixinApp; MixinRelocTable; MixinLoadAddress; MixinIvt; MixinTrustZone; MixinCertBlockV1; MixinHwKey; MixinKeyStore;
+                               MixinHmacMandatory; MixinCtrInitVector; ExportMixinAppTrustZoneCertBlockEncrypt; ExportMixinRsaSign;
+                               ExportMixinHmacKeyStoreFinalize] |}.
+Definition demo_c_v21 : mbi_class :=
+  {| c_type := 4; c_mixins := [MixinApp; MixinIvt; MixinLoadAddress; MixinCertBlockV21; MixinManifestDigest;
+                               ExportMixinAppCertBlockManifest; ExportMixinEccSign] |}.
+Definition demo_key : list N := map N.of_nat (seq 100 32).
+Definition demo_x_enc (ks : option (list N)) : mbi :=
+  set_ks (set_iv (set_hmac (set_cert (demo_x 80) (Some (CertV1 demo_pre demo_post 256))) (Some demo_key)) (map N.of_nat (seq 7 16))) ks.
+Definition demo_cfg_enc : rom_cfg := {| r_cb := CbV1; r_hmac := true; r_tzsize := 464; r_mcrc := false; r_types := [3%Z] |}.
+Definition demo_keys_enc : rom_keys := {| rk_rkth := sha256 (concat demo_table); rk_user := demo_key |}.
+Definition rom_accepts (cfg : rom_cfg) (keys : rom_keys) (r : res (list N)) : bool :=
+  match r with Ok img => match rom_mbi cfg keys img with Some _ => true | None => false end | Err _ => false end.
+
+Example demo_enc_instance :
+  k_enc demo_c_enc = true /\ wf_input (demo_x_enc None) /\ ks_wf (demo_x_enc None) /\ ks_nonempty (demo_x_enc None) /\
+  rom_accepts demo_cfg_enc demo_keys_enc (export_mbi (real_crypto (demo_sign 256)) demo_c_enc (demo_x_enc None)) = true.
+Proof. split; [vm_compute; reflexivity|]. split; [apply demo_wf|]. split; [exact I|]. split; [exact I|vm_compute; reflexivity]. Qed.
+
+(* finding C02-F2: a key store object without content -- exported, rejected by the ROM model (the image key differs) *)
+Lemma enc_empty_keystore_refuted_l :
+  exists (c : mbi_class) (x : mbi) (img : list N),
+    k_enc c = true /\ wf_input x /\ m_ks x = Some [] /\
+    export_mbi (real_crypto (demo_sign 256)) c x = Ok img /\ rom_mbi demo_cfg_enc demo_keys_enc img = None /\
+    rom_accepts demo_cfg_enc demo_keys_enc (export_mbi (real_crypto (demo_sign 256)) c (set_ks x None)) = true.
+Proof.
+  exists demo_c_enc, (demo_x_enc (Some [])).
+  destruct (export_mbi (real_crypto (demo_sign 256)) demo_c_enc (demo_x_enc (Some []))) as [img|k] eqn:E.
+  - exists img. split; [vm_compute; reflexivity|]. split; [apply demo_wf|]. split; [reflexivity|]. split; [reflexivity|].
+    split; [|vm_compute; reflexivity].
+    assert (X : rom_accepts demo_cfg_enc demo_keys_enc (export_mbi (real_crypto (demo_sign 256)) demo_c_enc (demo_x_enc (Some []))) = false)
+      by (vm_compute; reflexivity).
+    rewrite E in X. unfold rom_accepts in X. destruct (rom_mbi demo_cfg_enc demo_keys_enc img); [discriminate X|reflexivity].
+  - exfalso. assert (X : is_ok (export_mbi (real_crypto (demo_sign 256)) demo_c_enc (demo_x_enc (Some []))) = true) by (vm_compute; reflexivity).
+    rewrite E in X. discriminate X.
+Qed.
+
+(* certificate block v2.1 with one P-256 root key, no ISK: "chdr" 1 0 2 0 | size 80 | flags 0x80000011 | X || Y *)
+Definition demo_body21 : list N := (CHDR_B ++ le_enc 4 80 ++ le_enc 4 2147483665 ++ zeros 64)%N.
+Definition demo_info21 : cb21_info := {| c2_size := 80; c2_obl := []; c2_alg := 2; c2_pub := zeros 64 |}.
+Definition demo_keys21 : rom_keys := {| rk_rkth := sha256 (zeros 64); rk_user := [] |}.
+Definition demo_cfg21 : rom_cfg := {| r_cb := CbV21; r_hmac := false; r_tzsize := 1100; r_mcrc := false; r_types := [4%Z] |}.
+Definition demo_x21 (dg : Z) : mbi :=
+  {| m_app := demo_app 60; m_load := 0; m_imgver := 0; m_subtype := 0; m_fwver := 7; m_tz := TzEnabled; m_hwkey := false;
+     m_ks := None; m_hmac := None; m_iv := []; m_table := None; m_cert := Some (CertV21 demo_body21 64); m_digest := dg |}.
+Lemma demo_cb21_ok : cb_v21_ok (rk_rkth demo_keys21) demo_body21 demo_info21.
+Proof. split; [cbn; lia|]. split; [reflexivity|]. split; [vm_compute; reflexivity|vm_compute; reflexivity]. Qed.
+Example demo_v21_instance :
+  k_v21 demo_c_v21 = true /\ wf_input (demo_x21 1) /\ klen_of demo_info21 = 32 /\
+  rom_accepts demo_cfg21 demo_keys21 (export_mbi (real_crypto (demo_sign 64)) demo_c_v21 (demo_x21 1)) = true /\
+  rom_accepts demo_cfg21 demo_keys21 (export_mbi (real_crypto (demo_sign 64)) demo_c_v21 (demo_x21 0)) = true.
+Proof.
+  split; [vm_compute; reflexivity|]. split; [unfold wf_input, demo_x21; cbn; repeat split; lia|]. split; [reflexivity|].
+  split; vm_compute; reflexivity.
+Qed.
+(* finding C02-F1: manifest digest algorithm SHA-384 over a P-256 signature -- exported, rejected by the ROM model *)
+Lemma digest_alg_mismatch_refuted_l :
+  exists (c : mbi_class) (x : mbi) (img : list N),
+    k_v21 c = true /\ wf_input x /\ cb_v21_ok (rk_rkth demo_keys21) demo_body21 demo_info21 /\
+    m_cert x = Some (CertV21 demo_body21 64) /\ m_digest x = 2%Z /\ c2_alg demo_info21 = 2%Z /\
+    export_mbi (real_crypto (demo_sign 64)) c x = Ok img /\ rom_mbi demo_cfg21 demo_keys21 img = None.
+Proof.
+  exists demo_c_v21, (demo_x21 2).
+  destruct (export_mbi (real_crypto (demo_sign 64)) demo_c_v21 (demo_x21 2)) as [img|k] eqn:E.
+  - exists img. split; [vm_compute; reflexivity|]. split; [unfold wf_input, demo_x21; cbn; repeat split; lia|].
+    split; [apply demo_cb21_ok|]. repeat (split; [reflexivity|]).
+    assert (X : rom_accepts demo_cfg21 demo_keys21 (export_mbi (real_crypto (demo_sign 64)) demo_c_v21 (demo_x21 2)) = false)
+      by (vm_compute; reflexivity).
+    rewrite E in X. unfold rom_accepts in X. destruct (rom_mbi demo_cfg21 demo_keys21 img); [discriminate X|reflexivity].
+  - exfalso. assert (X : is_ok (export_mbi (real_crypto (demo_sign 64)) demo_c_v21 (demo_x21 2)) = true) by (vm_compute; reflexivity).
+    rewrite E in X. discriminate X.
 Qed.
